@@ -35,6 +35,8 @@ def apply_ops(sections, ops):
 def check_case(rep, case, name):
     if case.get('kind') in ('api-sequence', 'cli-two-sections'):
         extra_cases(rep); return
+    if case.get('kind') == 'table-form':
+        table_form_cases(rep); return
     rng = random.Random(case['seed'])
     sp_, head, entries = pair_model(rng, n_species=3)
     tab = [('target', 'LAMMPS'), ('nr', '12'), ('cutoff', '5.5')]
@@ -160,6 +162,48 @@ def extra_cases(rep):
     if got != want: rep.dev('cli-two-sections', dict(kind='cli-two-sections', key=a), 'exit %r: output differs from the file edited in both sections' % (code,), 'same bytes')
     else: rep.ok()
 
+def table_form_cases(rep):
+    """sections whose NAME contains a colon ([Table-Form:NAME]): their items are items of the file like any other -- listed once with their values,
+    found by --item-value, and editable from the command line exactly as by hand"""
+    tabl = [('target', 'LAMMPS'), ('nr', '12'), ('cutoff', '5.5')]
+    tf = [('interpolation', 'cubic_spline'), ('x', '0 1 2 3 4 5 6'), ('y', '1 2 3 4 5 6 7')]
+    secs = [('Tabulation', tabl), ('Pair', [('Al-Al', 'tab1'), ('Al-O', 'as.polynomial 1.0 2.0')]), ('Table-Form:tab1', tf), ('Other', [('foo', 'bar')])]
+    text = render([], secs)
+    # listing
+    rep.case('table-form', 'list-items')
+    code, so, se, _ = potable(['--list-items'], text, want_out=False)
+    want_items = sorted('%s:%s=%s' % (s_, k, v) for s_, e in secs for k, v in e)
+    got_items = sorted(l for l in so.split('\n') if l.strip())
+    if got_items != want_items:
+        rep.dev('table-form-list-items', dict(kind='table-form', name='list-items'), 'listing misses %r, has extra %r' % ([x for x in want_items if x not in got_items][:4], [x for x in got_items if x not in want_items][:4]),
+                'every item of the file exactly once (%d items)' % len(want_items))
+    else: rep.ok()
+    rep.case('table-form', 'item-value')
+    code, so, se, _ = potable(['--item-value', 'Table-Form:tab1:x'], text, want_out=False)
+    if so.strip() != '0 1 2 3 4 5 6': rep.dev('table-form-item-value', dict(kind='table-form', name='item-value'), 'exit %r stdout %r stderr %r' % (code, so[-60:], se[-120:]), 'the value of x in [Table-Form:tab1]')
+    else: rep.ok()
+    # edits: override one table-form item, remove + add another, against the hand-edited file
+    ny = '7 6 5 4 3 2 1'
+    edited = [('Tabulation', tabl), ('Pair', secs[1][1]), ('Table-Form:tab1', [('interpolation', 'cubic_spline'), ('x', '0 1 2 3 4 5 6'), ('y', ny)]), ('Other', [('foo', 'bar')])]
+    for nm, argv, ed in (('override', ['--override-item', 'Table-Form:tab1:y=' + ny], edited),
+                         ('remove-and-add', ['--remove-item', 'Table-Form:tab1:y', '--add-item', 'Table-Form:tab1:y=' + ny], edited),
+                         ('value-with-colons-and-equals', ['--add-item', 'Other:note=a:b=c'], [secs[0], secs[1], secs[2], ('Other', [('foo', 'bar'), ('note', 'a:b=c')])])):
+        rep.case('table-form', nm)
+        code, so, se, got = potable(argv, text)
+        try: want = tabulate_text(render([], ed))
+        except Exception as e: rep.dev('table-form-' + nm, dict(kind='table-form', name=nm), 'the hand-edited file is rejected: %r' % (e,), 'accepted'); continue
+        if got != want: rep.dev('table-form-' + nm, dict(kind='table-form', name=nm), 'exit %r (%s): output differs from the hand-edited file' % (code, se[-140:].replace('\n', ' ')), 'same bytes')
+        else:
+            code, so, se, _ = potable(argv + ['--list-items'], text, want_out=False)
+            wi = sorted('%s:%s=%s' % (s_, k, v) for s_, e in ed for k, v in e); gi = sorted(l for l in so.split('\n') if l.strip())
+            if gi != wi: rep.dev('table-form-' + nm, dict(kind='table-form', name=nm, route='list-items'), 'listing of the edited file misses %r, extra %r' % ([x for x in wi if x not in gi][:3], [x for x in gi if x not in wi][:3]), 'every item once')
+            else: rep.ok()
+    # an item of a missing table-form section is rejected as a configuration error
+    rep.case('table-form', 'override-missing')
+    code, so, se, got = potable(['--override-item', 'Table-Form:nope:x=1 2 3'], text)
+    if code == 0 or 'configuration error' not in se: rep.dev('table-form-override-missing', dict(kind='table-form', name='override-missing'), 'exit %r %r' % (code, se[-100:]), 'configuration error')
+    else: rep.ok()
+
 def a5_model_cases(rep, seed, n):
     """validation of the A5 model used by contracts/overrides.py: every axiom of the four editing operations (and the well-formedness
     facts) is evaluated on the real _RawConfigParser for random states, sections and keys"""
@@ -221,7 +265,7 @@ if __name__ == '__main__':
     if pl.get('mode') == 'replay': rep.case('replay', pl['input']); check_case(rep, pl['input'], 'replay')
     else:
         rng = random.Random(pl.get('seed', 0))
-        extra_cases(rep)
+        extra_cases(rep); table_form_cases(rep)
         for i in range(pl.get('n', 40)):
             c = gen_case(rng); rep.case('+'.join(sorted(set(o[0] for o in c['ops']))), c); check_case(rep, c, 'seeded-%d' % i)
     rep.finish()
